@@ -137,7 +137,7 @@ def codec_case_to_coq(c, out):
 
 def codec_correspondence(wd, cases, outs):
     import concurrent.futures as cf
-    shard = max(4, (len(cases) + 15) // 16)
+    shard = min(max(4, (len(cases) + 15) // 16), 40)
     jobs = [(si, cases[si:si + shard], outs[si:si + shard]) for si in range(0, len(cases), shard)]
     hdr = ("From Coq Require Import List String NArith ZArith Bool.\n"
            "From Piko Require Import Base.Maps Base.Strs Gossip.Types Gossip.Codec Run.Run_Gossip Run.Run_Codec.\n"
@@ -155,7 +155,7 @@ def codec_correspondence(wd, cases, outs):
         return [(si + int(a), int(b)) for a, b in re.findall(r"\(\s*(\d+)\s*,\s*(\d+)\s*\)", txt)]
 
     dis = []
-    with cf.ThreadPoolExecutor(max_workers=16) as ex:
+    with cf.ThreadPoolExecutor(max_workers=12) as ex:
         for r in ex.map(work, jobs):
             dis += [{"case": c, "max": m} for c, m in r]
     return dis
